@@ -17,6 +17,16 @@
 //     pinned tree strands them).  Observed: every front connection sees
 //     EOF/reset, the name is unregistered, ServeFront returns after cancel,
 //     no goroutine is left inside sniproxy/netutil.
+//   - stream "ep": Endpoint.Accept / Close / sendAccept driven explicitly.
+//   - stream "epb": the accept backlog against the loss of the tunnel.  A real
+//     Server with ServeFront and a real Endpoint whose application does not
+//     call Accept: N front connections fill the backlog (10) and park the
+//     remaining dial handlers in sendAccept; the control connection is then
+//     severed / kicked / shut down; once the endpoint's serve loop is in its
+//     deferred clean-up the application drains Accept.  Observed: Accept
+//     returns, every connection Accept handed out ends (a pending Read, a
+//     later Read and a later Write return), Endpoint.Close returns, the
+//     proxy closes every front connection, nothing is left behind.
 package main
 
 import (
@@ -85,6 +95,19 @@ type Case struct {
 	SendAcceptLeft int      `json:"sendaccept_left,omitempty"` // goroutines still in sendAccept 3 s after Close returned
 	MidDial        string   `json:"mid_dial,omitempty"`        // side-kick-middial: how the dial in flight ended
 	AcceptReturned bool     `json:"accept_returned"`           // the lost endpoint's Accept returned (endpoint side)
+	// stream "epb"
+	Mode        string `json:"mode,omitempty"`         // "" (tunnelled) | siding | sidingaddr
+	Parked      int    `json:"parked,omitempty"`       // dial handlers waiting in sendAccept when the fault was injected
+	Noticed     bool   `json:"noticed,omitempty"`      // the endpoint's serve loop was in its deferred clean-up before the drain
+	Accepted    int    `json:"accepted,omitempty"`     // connections handed out by Accept
+	AcceptEnd   string `json:"accept_end,omitempty"`   // how the accept loop ended: err | stuck
+	ReadStuck   []int  `json:"read_stuck,omitempty"`   // accepted connections (by order of acceptance) whose pending Read did not return
+	LaterStuck  []int  `json:"later_stuck,omitempty"`  // ... whose later Read / Write did not return
+	LaterOK     int    `json:"later_ok,omitempty"`     // later Reads/Writes that SUCCEEDED on a connection of the lost tunnel
+	CloseStuck  bool   `json:"close_stuck,omitempty"`  // Endpoint.Close did not return
+	FrontsTotal int    `json:"fronts,omitempty"`
+	Timeline    []int  `json:"timeline_ms,omitempty"` // since the fault: noticed, accept loop ended, Close returned, fronts observed, reads observed
+	RegAtFronts bool   `json:"registered_when_fronts_observed,omitempty"`
 	Skipped        bool     `json:"skipped,omitempty"`         // not run: the stream was stopped after repeated stranding
 	Queued         int      `json:"queued_at_release,omitempty"`
 	Leak           []string `json:"leak,omitempty"`
@@ -640,8 +663,15 @@ func runEP(c *Case) {
 		c.Crash = "dial endpoint: " + err.Error()
 		return
 	}
-	for t0 := time.Now(); srv.VerifLookup("/site") == nil && time.Since(t0) < waitBound; {
-		time.Sleep(100 * time.Microsecond)
+	// (the server maps the name first and calls the endpoint callback a moment
+	// later: wait for both)
+	for t0 := time.Now(); time.Since(t0) < waitBound; time.Sleep(100 * time.Microsecond) {
+		mu.Lock()
+		nc := len(clients)
+		mu.Unlock()
+		if nc > 0 && srv.VerifLookup("/site") != nil {
+			break
+		}
 	}
 	mu.Lock()
 	var first *sniproxy.VerifClient
@@ -810,6 +840,377 @@ func runEP(c *Case) {
 	for _, g := range left {
 		if seen[g] > 0 {
 			seen[g]--
+		} else {
+			c.Leak = append(c.Leak, g)
+		}
+	}
+}
+
+// ---- the accept backlog against the loss of the tunnel ---------------------------------
+
+// genEPB: the five ways the tunnel goes away first, each with 15..40 front
+// connections; afterwards seeded.
+func genEPB(seed uint64, i, j int) Case {
+	r := hx.NewRng(seed*6151 + uint64(j)*786433 + 5)
+	c := Case{I: i, Stream: "epb", Fault: epbFaults[j%len(epbFaults)], Conns: 15 + r.Intn(26)}
+	if j >= len(epbFaults) {
+		c.Fault = epbFaults[r.Intn(len(epbFaults))]
+		if r.Intn(4) == 0 { // the backlog is not full: nobody is parked
+			c.Conns = 1 + r.Intn(10)
+		}
+	}
+	return c
+}
+
+var epbFaults = []string{"sever-endpoint", "kick", "shutdown", "sever-server", "close-endpoint"}
+
+const (
+	frameSendAccept = "shanhu.io/g/sniproxy.(*Endpoint).sendAccept"
+	// the endpoint's serve loop inside its deferred clean-up (cleanup(); callWait.Wait())
+	frameServeExit = "shanhu.io/g/sniproxy.(*endpointServer).serve.func1"
+	epBacklog      = 10 // cap(Endpoint.incoming)
+)
+
+// countFrame counts the goroutines whose innermost sniproxy frame is fn.
+func countFrame(fn string) int {
+	n := 0
+	for _, g := range rpcx.Goroutines([]string{"shanhu.io/g/sniproxy"}, []string{"Verif"}) {
+		if g == fn {
+			n++
+		}
+	}
+	return n
+}
+
+// closedBy reports whether ch is closed, waiting until end at the latest.
+func closedBy(ch <-chan struct{}, end time.Time) bool {
+	select {
+	case <-ch:
+		return true
+	default:
+	}
+	d := time.Until(end)
+	if d <= 0 {
+		return false
+	}
+	select {
+	case <-ch:
+		return true
+	case <-time.After(d):
+		return false
+	}
+}
+
+// accepted is one connection Accept handed to the application, which at once
+// starts to read from it; after that Read has returned it reads once more and
+// writes.
+type accepted struct {
+	conn      net.Conn
+	readDone  chan struct{}
+	laterDone chan struct{}
+}
+
+// runEPB: nobody accepts while c.Conns front connections arrive; the control
+// connection goes away; the application then runs an ordinary accept loop.
+func runEPB(c *Case) {
+	leakBase := rpcx.Goroutines(e2eFrames, []string{"Verif"})
+	parkedBase, exitBase := countFrame(frameSendAccept), countFrame(frameServeExit)
+	side := c.Mode != ""
+	var mu sync.Mutex
+	var clients []*sniproxy.VerifClient
+	srv := sniproxy.NewServer(&sniproxy.ServerConfig{
+		Lookup: func(domain string) (*sniproxy.Dest, error) {
+			if domain == "site.com" {
+				return &sniproxy.Dest{Name: "/site"}, nil
+			}
+			return nil, fmt.Errorf("bad domain %q", domain)
+		},
+	})
+	srv.VerifSetEndpointCallback(func(name string, cl *sniproxy.VerifClient) {
+		mu.Lock()
+		clients = append(clients, cl)
+		mu.Unlock()
+	})
+	var backs sync.WaitGroup
+	ts := httptest.NewServer(aries.Func(func(ac *aries.C) error {
+		backs.Add(1)
+		defer backs.Done()
+		ac.User = ac.Path
+		return srv.ServeBack(ac)
+	}))
+	defer ts.Close()
+	lis, err := net.ListenTCP("tcp", &net.TCPAddr{IP: net.IPv4(127, 0, 0, 1)})
+	if err != nil {
+		c.Crash = "listen: " + err.Error()
+		return
+	}
+	defer lis.Close()
+	fctx, fcancel := context.WithCancel(context.Background())
+	defer fcancel()
+	frontDone := make(chan struct{})
+	go func() {
+		srv.ServeFront(fctx, lis)
+		close(frontDone)
+	}()
+	dialEP := func() (*sniproxy.Endpoint, error) {
+		opt := &sniproxy.DialOption{Path: "/site", WithoutTLS: true}
+		if side {
+			opt.TunnelOptions = &sniproxy.Options{Siding: true, DialWithAddr: c.Mode == "sidingaddr"}
+		}
+		return sniproxy.Dial(context.Background(), &sniproxy.StaticRouter{Host: ts.Listener.Addr().String()}, opt)
+	}
+	ep, err := dialEP()
+	if err != nil {
+		c.Crash = "dial endpoint: " + err.Error()
+		return
+	}
+	// (the server maps the name first and calls the endpoint callback a moment
+	// later: wait for both)
+	for t0 := time.Now(); time.Since(t0) < waitBound; time.Sleep(100 * time.Microsecond) {
+		mu.Lock()
+		nc := len(clients)
+		mu.Unlock()
+		if nc > 0 && srv.VerifLookup("/site") != nil {
+			break
+		}
+	}
+	mu.Lock()
+	var first *sniproxy.VerifClient
+	if len(clients) > 0 {
+		first = clients[0]
+	}
+	mu.Unlock()
+	if first == nil {
+		c.Hang = "endpoint did not register"
+		return
+	}
+
+	// a burst of front connections; nobody is accepting
+	n := c.Conns
+	if n < 1 {
+		n = 1
+	}
+	c.FrontsTotal = n
+	var fronts []net.Conn
+	closedCh := make([]chan struct{}, n)
+	for j := 0; j < n; j++ {
+		closedCh[j] = make(chan struct{})
+		fc, err := net.DialTimeout("tcp", lis.Addr().String(), waitBound)
+		if err != nil {
+			c.Hang = "front dial: " + err.Error()
+			close(closedCh[j])
+			continue
+		}
+		fronts = append(fronts, fc)
+		go func(j int, fc net.Conn) {
+			cfg := tlsCfg.Client.Clone()
+			cfg.ServerName = "site.com"
+			// sends the ClientHello and waits for an answer that never comes:
+			// returns when the proxy closes the connection
+			tls.Client(fc, cfg).Handshake()
+			close(closedCh[j])
+		}(j, fc)
+	}
+	defer func() {
+		for _, fc := range fronts {
+			fc.Close()
+		}
+	}()
+	// the backlog is full and every other dial handler waits in sendAccept
+	want := n - epBacklog
+	if want < 0 {
+		want = 0
+	}
+	for t0 := time.Now(); time.Since(t0) < waitBound; time.Sleep(time.Millisecond) {
+		if c.Parked = countFrame(frameSendAccept) - parkedBase; c.Parked >= want {
+			time.Sleep(2 * time.Millisecond)
+			break
+		}
+	}
+
+	// the control connection goes away
+	ref := time.Now()
+	mark := func() { c.Timeline = append(c.Timeline, int(time.Since(ref)/time.Millisecond)) }
+	var ep2 *sniproxy.Endpoint
+	closeDone := make(chan struct{})
+	closeOnce := func() {
+		t0 := time.Now()
+		ep.Close()
+		c.CloseMs = int(time.Since(t0) / time.Millisecond)
+		close(closeDone)
+	}
+	switch c.Fault {
+	case "sever-endpoint":
+		ep.VerifSever()
+	case "sever-server":
+		first.Sever()
+	case "kick":
+		ep2, err = dialEP()
+		if err != nil {
+			c.Hang = "kick dial: " + err.Error()
+		}
+	case "shutdown":
+		go first.Close()
+	case "close-endpoint":
+		// the application itself closes the endpoint while its accept loop
+		// (below) is still running
+		go closeOnce()
+	}
+	// the endpoint has noticed: its serve loop is in the deferred clean-up,
+	// waiting for the dial handlers
+	// (with nobody parked the clean-up has nothing to wait for and is over
+	// at once: there is no window, the accept loop simply runs into the end)
+	seen := 0
+	for t0 := time.Now(); c.Parked > 0 && time.Since(t0) < waitBound && seen < 2; time.Sleep(time.Millisecond) {
+		if countFrame(frameServeExit) > exitBase {
+			seen++
+		} else {
+			seen = 0
+		}
+	}
+	c.Noticed = seen >= 2
+	mark()
+
+	// the application's accept loop, until Accept fails
+	var accMu sync.Mutex
+	var accs []*accepted
+	acceptEnd := make(chan struct{})
+	go func() {
+		defer close(acceptEnd)
+		for {
+			conn, err := ep.Accept()
+			if err != nil {
+				return
+			}
+			a := &accepted{conn: conn, readDone: make(chan struct{}), laterDone: make(chan struct{})}
+			accMu.Lock()
+			accs = append(accs, a)
+			accMu.Unlock()
+			go func() {
+				buf := make([]byte, 64)
+				conn.Read(buf)
+				close(a.readDone)
+				conn.Read(buf)
+				conn.Write([]byte("late"))
+				close(a.laterDone)
+			}()
+		}
+	}()
+	select {
+	case <-acceptEnd:
+		c.AcceptEnd = "err"
+	case <-time.After(waitBound):
+		c.AcceptEnd = "stuck"
+	}
+	mark()
+	if c.Fault != "close-endpoint" {
+		go closeOnce()
+	}
+	select {
+	case <-closeDone:
+	case <-time.After(waitBound):
+		c.CloseStuck = true
+	}
+	mark()
+	// observations
+	obsBound := waitBound
+	if side && obsBound > 5*time.Second {
+		// (on a sound tree everything below takes milliseconds; a side-mode
+		// scenario costs two bounds on a tree that orphans side connections)
+		obsBound = 5 * time.Second
+	}
+	end := time.Now().Add(obsBound)
+	c.FrontClosed = make([]bool, n)
+	if side {
+		// established side connections are websockets of their own and may
+		// live on; only the front connections whose dial was in flight must
+		// go: wait for those
+		for time.Now().Before(end) {
+			nclosed := 0
+			for j := 0; j < n; j++ {
+				select {
+				case <-closedCh[j]:
+					nclosed++
+				default:
+				}
+			}
+			if nclosed >= want {
+				break
+			}
+			time.Sleep(time.Millisecond)
+		}
+		end = time.Now()
+	}
+	for j := 0; j < n; j++ {
+		c.FrontClosed[j] = closedBy(closedCh[j], end)
+	}
+	mark()
+	if cur := srv.VerifLookup("/site"); cur != nil && cur.Same(first) {
+		c.RegAtFronts = true
+	}
+	accMu.Lock()
+	mine := append([]*accepted{}, accs...)
+	accMu.Unlock()
+	c.Accepted = len(mine)
+	if side {
+		// the established side connections live as long as their front
+		// connections: the clients hang up now, so that every connection the
+		// application holds has to end -- those whose front connection the
+		// proxy has closed already because the server closes them, the others
+		// because their front connection is gone
+		for _, fc := range fronts {
+			fc.Close()
+		}
+	}
+	end = time.Now().Add(obsBound)
+	for j, a := range mine {
+		if !closedBy(a.readDone, end) {
+			c.ReadStuck = append(c.ReadStuck, j)
+		} else if !closedBy(a.laterDone, end) {
+			c.LaterStuck = append(c.LaterStuck, j)
+		}
+	}
+	mark()
+	for end = time.Now().Add(waitBound); time.Now().Before(end); time.Sleep(time.Millisecond) {
+		cur := srv.VerifLookup("/site")
+		if cur == nil || !cur.Same(first) {
+			c.Unregistered = true
+			break
+		}
+	}
+
+	// teardown: release whatever is still blocked, then serving must end
+	for _, a := range mine {
+		a.conn.Close()
+	}
+	for _, fc := range fronts {
+		fc.Close()
+	}
+	if ep2 != nil {
+		go ep2.Close()
+	}
+	fcancel()
+	end = time.Now().Add(obsBound)
+	select {
+	case <-frontDone:
+		c.FrontReturned = true
+	case <-time.After(time.Until(end)):
+	}
+	done := make(chan struct{})
+	go func() { backs.Wait(); close(done) }()
+	select {
+	case <-done:
+		c.BackReturned = true
+	case <-time.After(time.Until(end)):
+	}
+	left := waitCount(e2eFrames, []string{"Verif"}, len(leakBase), time.Until(end))
+	seenG := map[string]int{}
+	for _, g := range leakBase {
+		seenG[g]++
+	}
+	for _, g := range left {
+		if seenG[g] > 0 {
+			seenG[g]--
 		} else {
 			c.Leak = append(c.Leak, g)
 		}
@@ -997,8 +1398,15 @@ func runE2E(c *Case) {
 	}()
 	// Dial returns when the websocket handshake is done; the server maps the
 	// name a moment later
-	for t0 := time.Now(); srv.VerifLookup("/site") == nil && time.Since(t0) < waitBound; {
-		time.Sleep(100 * time.Microsecond)
+	// (the server maps the name first and calls the endpoint callback a moment
+	// later: wait for both)
+	for t0 := time.Now(); time.Since(t0) < waitBound; time.Sleep(100 * time.Microsecond) {
+		mu.Lock()
+		nc := len(clients)
+		mu.Unlock()
+		if nc > 0 && srv.VerifLookup("/site") != nil {
+			break
+		}
 	}
 
 	// k tunnelled front connections, each proven live by an echo
@@ -1250,6 +1658,16 @@ func strandKinds(c *Case) string {
 	if c.Crash != "" {
 		return ""
 	}
+	if c.Stream == "epb" {
+		add(c.AcceptEnd == "stuck", "accept")
+		add(c.CloseStuck, "close")
+		add(len(c.ReadStuck) > 0, "read")
+		add(len(c.LaterStuck) > 0, "later")
+		add(!c.FrontReturned, "servefront")
+		add(!c.BackReturned, "serveback")
+		add(len(c.Leak) > 0, "leak")
+		return strings.Join(ks, ",")
+	}
 	if c.Stream == "ep" {
 		for _, x := range c.EP {
 			add(!x.Returned, x.Kind)
@@ -1291,6 +1709,7 @@ func main() {
 	n := flag.Int("n", 120, "transport-level scenarios")
 	ne := flag.Int("e2e", 16, "end-to-end scenarios")
 	nep := flag.Int("ep", 8, "endpoint-side scenarios")
+	nepb := flag.Int("epb", 5, "accept-backlog scenarios")
 	bound := flag.Int("bound", 10, "observation bound in seconds")
 	script := flag.String("script", "", "JSON file with a list of cases to run instead")
 	child := flag.Bool("child", false, "child mode")
@@ -1301,13 +1720,16 @@ func main() {
 	var scripted []Case
 	if *script != "" {
 		scripted = loadScript(*script)
-		*n, *ne, *nep = len(scripted), 0, 0
+		*n, *ne, *nep, *nepb = len(scripted), 0, 0, 0
 	}
-	total := *n + *ne + *nep
+	total := *n + *ne + *nep + *nepb
 	gen := func(i int) Case {
 		if scripted != nil {
 			x := scripted[i]
-			return Case{I: i, Stream: x.Stream, Steps: x.Steps, Fault: x.Fault, Conns: x.Conns, Hold: x.Hold}
+			return Case{I: i, Stream: x.Stream, Steps: x.Steps, Fault: x.Fault, Conns: x.Conns, Hold: x.Hold, Mode: x.Mode}
+		}
+		if i >= *n+*ne+*nep {
+			return genEPB(*seed, i, i-*n-*ne-*nep)
 		}
 		if i < *n {
 			return genTL(*seed, i)
@@ -1345,6 +1767,8 @@ func main() {
 				runTL(&c, tap)
 			case "ep":
 				runEP(&c)
+			case "epb":
+				runEPB(&c)
 			default:
 				runE2E(&c)
 			}
@@ -1359,7 +1783,7 @@ func main() {
 		return
 	}
 	args := []string{"-seed", strconv.FormatUint(*seed, 10), "-n", strconv.Itoa(*n), "-e2e", strconv.Itoa(*ne),
-		"-bound", strconv.Itoa(*bound), "-ep", strconv.Itoa(*nep)}
+		"-bound", strconv.Itoa(*bound), "-ep", strconv.Itoa(*nep), "-epb", strconv.Itoa(*nepb)}
 	if *script != "" {
 		args = append(args, "-script", *script)
 	}
